@@ -258,5 +258,6 @@ func runC16(r *run) {
 			r.sample(map[string]any{"case": input, "printed": text})
 		}
 	}
+	childTimeSettings(r.violate)
 	slog.VerifResetGlobals()
 }
